@@ -112,7 +112,7 @@ class Script:
     try:
       st = self._answer(hsm, i, name, rs)
       rec[2] = {None: "NONE", rs.SUPER: "SUPER", rs.HANDLED: "HANDLED", rs.UNHANDLED: "UNHANDLED",
-                rs.TRAN: "TRAN"}.get(st, str(st))
+                rs.TRAN: "TRAN", rs.NULL: "NULL"}.get(st, str(st))
       return st
     finally:
       self.stack.pop()
@@ -152,6 +152,8 @@ class Script:
         self.do_effect(hsm, ef)
       if kind == "hook":
         return rs.HANDLED
+      if kind == "null":
+        return rs.NULL
       return hsm.trans(self.fn[tgt])
     return self._fall(hsm, i, rs)
 
